@@ -1,0 +1,20 @@
+//go:build verif
+
+package charcode
+
+// VerifNode is one entry of the linearised lookup tree of a [Codec], exported
+// for the verification harness (property C12).  The file is only compiled with
+// the build tag "verif" and adds no behaviour.
+type VerifNode struct {
+	Bound byte
+	Child uint16
+}
+
+// VerifNodes returns a copy of the node array of the codec.
+func (c *Codec) VerifNodes() []VerifNode {
+	res := make([]VerifNode, len(c.nodes))
+	for i, n := range c.nodes {
+		res[i] = VerifNode{Bound: n.bound, Child: n.child}
+	}
+	return res
+}
